@@ -42,6 +42,20 @@ func c05Families(c *core.Ctx) {
 			}
 		}
 	}
+	// the nullable positions (type lists with null in either order) are part of the full product in the thorough tier; the quick
+	// tier keeps a cross-section of them, because a nullable primitive reaches the validators through a different type (pointer) path
+	if c.Tier != "thorough" {
+		for _, kind := range []string{"integer", "number"} {
+			for _, pos := range []string{"nullable-required", "nullable-optional"} {
+				for _, kws := range [][]string{{"minimum"}, {"maximum"}, {"minimum", "maximum", "multipleOf"}} {
+					for _, emin := range []string{"", "num"} {
+						sp := &fam.Spec{Kind: kind, Kw: kws, EMin: emin}
+						ms = append(ms, member{name: kind + " " + pos + " " + sp.String(), cfg: gen.DefaultConfig(), root: place(sp, pos)})
+					}
+				}
+			}
+		}
+	}
 	for _, mb := range ms {
 		runMember(c, mb, rules, 256, func(w *fam.World, fm *fam.FileModel) []fam.Issue {
 			return w.CheckObject(fm, w.Spec, "", "root")
